@@ -31,6 +31,7 @@ def build(E, tier):
     pm.verify_pool_get(E, "C08")
     pm.verify_pool_release_destroy(E, "C08")
     pm.verify_pool_clear(E, "C08")
+    pm.verify_pool_ctor(E, "C08")           # the lock and the two deques the monitor argument is about are created by the constructor
     n0 = len(E.obligations)
     pm.verify_pooled_client(E)
     # of the pooled-client model only the no-escape clause belongs here
